@@ -517,7 +517,8 @@ class NumbaReductionOps:
 
     @_scalar_func_decorator
     def sum_square(x, y):
-        return x + y**2
+        # squares are accumulated in floating point: integer squares overflow int64
+        return x + float(y) ** 2
 
 
 def get_array_name(
